@@ -252,8 +252,49 @@ fn exec_iter_step<T: Tbl>(ctx: &mut Ctx, ev: &Ev) {
     }
 }
 
+/// One script of `Iterator` methods (nth, skip, step_by, take, min/max, count, last, fold, size_hint) on one
+/// `all_functions` iterator, fresh or positioned, judged step by step against position arithmetic.
+fn exec_iter_script<T: Tbl>(ctx: &mut Ctx, ev: &Ev) {
+    use vmon::iterprobe as ip;
+    let n = ev.n;
+    let (fresh, script) = ip::ints_to_script(&ev.ints);
+    let start_blocks = &ev.tabs[0];
+    let start: Option<T> = if fresh {
+        None
+    } else {
+        match realize(ctx, ev, n, start_blocks) {
+            Some(s) => Some(s),
+            None => return,
+        }
+    };
+    let want = ip::model_script(n, start_blocks, &script);
+    let huge = script.iter().any(|(k, a)| matches!(*k, ip::NTH | ip::SKIP_NEXT | ip::STEP_BY3 | ip::TAKE_COUNT) && *a >= (1u64 << 31));
+    let ends = want.iter().any(|o| matches!(o, ip::Obs::Item(None)));
+    let class = format!("{}{}{}", if fresh { "fresh" } else { "positioned" }, if huge { "+huge-arg" } else { "" }, if ends { "+reaches-end" } else { "" });
+    ctx.event(&cell("iter-script", &class, T::ty(), n), ev, true);
+    for k in ip::script_kinds(&script) {
+        ctx.cell_only(&format!("iter-method|{}|{}", k, T::ty()));
+    }
+    let r = guard(|| T::t_iter_script(n, start.as_ref(), &script));
+    match r {
+        Outcome::Returned(got) => {
+            ctx.checked("iter-methods-agree-with-sequence", got.len() as u64);
+            if let Some((i, msg)) = ip::first_disagreement(&got, &want) {
+                let kind = script.get(i).map(|s| ip::kind_name(s.0)).unwrap_or("?");
+                ctx.violate("iter-methods-agree-with-sequence", ev, kind, format!(
+                    "step {} ({}({})) of script {:?} from {} {}: {}", i, kind, script.get(i).map(|s| s.1).unwrap_or(0),
+                    script.iter().map(|(k, a)| format!("{}({})", ip::kind_name(*k), a)).collect::<Vec<_>>(),
+                    if fresh { "a fresh iterator".to_string() } else { format!("position {}", hex_of_blocks(start_blocks)) },
+                    T::ty(), msg));
+            }
+        }
+        Outcome::Panicked(m) => ctx.violate("no-panic", ev, "iter-script", format!("iterator script {:?} panicked: {}", script, m)),
+    }
+}
+
 fn exec_dispatch(ctx: &mut Ctx, ev: &Ev) {
     match ev.op.as_str() {
+        "iter-script" => with_ty!(ev.is_static(), ev.n, T => exec_iter_script::<T>(ctx, ev)),
         "cmp" => with_ty!(ev.is_static(), ev.n, T => exec_cmp_same::<T>(ctx, ev)),
         "cmp-cross" => exec_cmp_cross(ctx, ev),
         "sort" => with_ty!(ev.is_static(), ev.n, T => exec_sort::<T>(ctx, ev)),
@@ -295,6 +336,7 @@ fn main() {
             shards.push(("cmp", n, c, chunks));
         }
         shards.push(("step", n, 0, 1));
+        shards.push(("script", n, 0, 1));
     }
     for n in 0..=4 {
         shards.push(("full", n, 0, 1));
@@ -373,6 +415,19 @@ fn main() {
                 let ty = if c == 0 { "Lut" } else { "LutN" };
                 exec_dispatch(ctx, &Ev::new("iter-full", ty, n));
                 ctx.exhaustive.insert(format!("complete all_functions run, n={} {}", n, ty), true);
+            }
+            "script" => {
+                let reps = if thorough { 6000 } else { 260 };
+                for _ in 0..reps {
+                    let (fresh, start) = vmon::iterprobe::gen_start(n, &mut rng);
+                    let script = vmon::iterprobe::gen_script(n, &start, &mut rng);
+                    let ints = vmon::iterprobe::script_to_ints(fresh, &script);
+                    both(ctx, n, |ty| {
+                        let mut e = Ev::new("iter-script", ty, n).tab(&start);
+                        e.ints = ints.clone();
+                        e
+                    });
+                }
             }
             "step" => {
                 let w = gen::words(n);
@@ -473,8 +528,15 @@ fn main() {
             if n <= 4 {
                 required.push(cell("iter-full", "complete-run", ty, n));
             }
+            required.push(cell("iter-script", "positioned+huge-arg+reaches-end", ty, n));
+            required.push(cell("iter-script", "fresh", ty, n));
         }
         required.push(cell("cmp-cross", "different-n", "Lut", n));
+    }
+    for ty in ["Lut", "LutN"] {
+        for k in ["next", "nth", "size_hint", "skip.next", "step_by.take3", "take.count", "take.min/max", "count", "last", "fold"] {
+            required.push(format!("iter-method|{}|{}", k, ty));
+        }
     }
     cli.finish(&ctx, &required, RULE);
 }
